@@ -120,25 +120,30 @@ parameters and the `rescaled_p` column keep the values of the discarded fit, and
 still be 'success').  Replayed on the implementation by the oracle (known finding, class `planted`,
 check `fss-params-overwritten-by-range-midpoint`). -/
 
-theorem reported_threshold_is_fitted_iff (raw pmin pmax : Rat) (n : Nat) (hn : 0 < n)
-    (hmid : raw ≠ (pmin + pmax) / 2) :
-    reportedPth raw pmin pmax n = raw ↔ (pmin ≤ raw ∧ raw ≤ pmax) := by
+/-- the reported value is the optimiser's value when that lies inside the error-rate range of every
+    bootstrap resample (in particular when there is no bootstrap iteration) -/
+theorem reported_threshold_is_fitted (raw : Rat) (bounds : List (Rat × Rat))
+    (h : ∀ b ∈ bounds, b.1 ≤ raw ∧ raw ≤ b.2) : reportedPth (some raw) bounds = some raw := by
   unfold reportedPth
-  rw [if_neg (by omega)]
-  split_ifs with h
-  · simp [h]
-  · constructor
-    · intro h'; exact absurd h'.symm hmid
-    · intro h'; exact absurd h' h
+  induction bounds with
+  | nil => rfl
+  | cons b bs ih =>
+    have hb := h b (by simp)
+    simp only [List.foldl_cons, overwriteStep, if_pos hb]
+    exact ih (fun b' hb' => h b' (by simp [hb']))
 
-theorem reported_threshold_without_bootstrap (raw pmin pmax : Rat) :
-    reportedPth raw pmin pmax 0 = raw := by simp [reportedPth]
+/-- ... and it is NOT the optimiser's value as soon as the first resample's range excludes it: the
+    midpoint of that range (which differs from the fitted value) is what later iterations see -/
+theorem reported_threshold_overwritten (raw : Rat) (b : Rat × Rat) (bs : List (Rat × Rat))
+    (hout : ¬ (b.1 ≤ raw ∧ raw ≤ b.2)) :
+    reportedPth (some raw) (b :: bs) = reportedPth (some ((b.1 + b.2) / 2)) bs := by
+  simp [reportedPth, overwriteStep, if_neg hout]
 
 /-- witness (numbers of the replayed data set, rounded): the optimiser returns p_th = -0.012 for
     rates in [0.116347, 0.202323]; 0.159335 is reported -/
 theorem fss_params_overwritten_witness :
-    reportedPth (-12 / 1000) (116347 / 1000000) (202323 / 1000000) 100 = 159335 / 1000000 ∧
-    reportedPth (-12 / 1000) (116347 / 1000000) (202323 / 1000000) 100 ≠ -12 / 1000 := by
+    reportedPth (some (-12 / 1000)) [(116347 / 1000000, 202323 / 1000000), (116347 / 1000000, 202323 / 1000000)]
+      = some (159335 / 1000000) := by
   decide +kernel
 
 /-! ## `get_fit_status` -/
